@@ -8,6 +8,7 @@ def dispatch (op : String) (args : List Sexp) : String :=
   | "codec.dec" => opCodecDec args
   | "sock.recv" => opSockRecv args
   | "seq.hash" => opSeqHash args
+  | "client.run" => opClientRun args
   | "reply.generic" => opReplyGeneric args
   | "reply.register" => opReplyRegister args
   | "path.epath" => opPathEpath args
